@@ -36,7 +36,7 @@ Scalars == IntTerms \cup FloatTerms
         [k |-> "str", cs |-> S("true")], [k |-> "str", cs |-> S("none")], [k |-> "str", cs |-> S("i1")], [k |-> "str", cs |-> S("PT1S")],
         [k |-> "bytes", bs |-> <<>>], [k |-> "bytes", bs |-> <<0, 255, 7>>],
         [k |-> "none"], [k |-> "unit"], [k |-> "unit_struct", name |-> S("U")], [k |-> "unit_variant", name |-> S("E"), variant |-> S("A")],
-        [k |-> "fail", msg |-> S("nope")], [k |-> "seq", xs |-> <<>>], [k |-> "map", kv |-> <<>>], [k |-> "struct", name |-> S("S"), fields |-> <<>>]}
+        [k |-> "fail", msg |-> S("nope")], [k |-> "seq", xs |-> <<>>], [k |-> "tuple_variant", name |-> S("E"), variant |-> S("T0"), xs |-> <<>>], [k |-> "map", kv |-> <<>>], [k |-> "struct", name |-> S("S"), fields |-> <<>>]}
 
 S0 == [k |-> "u8", n |-> ZFromInt(5)]
 K(str) == [k |-> "str", cs |-> S(str)]
@@ -46,6 +46,7 @@ Wraps(x) == {
   [k |-> "newtype_variant", name |-> S("E"), variant |-> S("V"), x |-> x],
   [k |-> "seq", xs |-> <<x>>], [k |-> "seq", xs |-> <<S0, x>>], [k |-> "tuple", xs |-> <<x, S0>>],
   [k |-> "tuple_struct", name |-> S("T"), xs |-> <<x>>], [k |-> "tuple_variant", name |-> S("E"), variant |-> S("T"), xs |-> <<S0, x>>],
+  [k |-> "tuple_variant", name |-> S("E"), variant |-> S("T1"), xs |-> <<x>>], [k |-> "tuple", xs |-> <<x>>],       \* a sequence of ONE is still a sequence
   [k |-> "map", kv |-> << <<K("k"), x>> >>], [k |-> "map", kv |-> << <<x, S0>> >>],
   [k |-> "map", kv |-> << <<K("k"), S0>>, <<K("a"), x>>, <<K("k"), x>> >>],
   \* keys and values emitted separately, keys not in order, a key repeated
